@@ -31,7 +31,7 @@ CLAIMS = {
                 text='Lean theorems: C13_parsers_agree (parseAdvanced of the grammar with includes textually inlined = parseAdvanced of the original, as an equation: acceptance, tree, positions, error, cache), C13_types (same field descriptors), C13_in_context, C13_site. Tie: pegdiff incl family (grammar vs printed inlined twin, impl-vs-impl and impl-vs-model).',
                 tech='Lean 4 simulation proof (include = parenthesised body at equal fuel) + differential twin grammars'),
     'C18': dict(engine='fsdiff', ref='6 C18',
-                text='Lean theorems over operation histories: C18_failure_preserves, C18_untouched, C18_rewrite_only_when_needed, C18_fresh_partial (freshness after any history, under non-collision of CRC-32 on the texts of the history), and the proved negation of the unconditional statement with a concrete colliding pair (known finding K1); with `.format()`: rustfmt as a parameter fmt, C18_format_untouched / C18_format_fresh_partial under the assumption KeepsHeaderLines (checked on every rustfmt output of the run), and the proved failure of the pre-fix behaviour (defect F8, fixed). Tie: fsdiff histories against the real Compile in a scratch directory (file, explicit destination, directory, symlinked-directory and .format() mode, bystander files, prefixes rustfmt rewrites).',
+                text='Lean theorems over operation histories: C18_failure_preserves, C18_untouched, C18_rewrite_only_when_needed, C18_fresh_partial (freshness after any history, under non-collision of CRC-32 on the texts of the history), and the proved negation of the unconditional statement with a concrete colliding pair (known finding K1); with `.format()`: rustfmt as a parameter fmt, C18_format_untouched / C18_format_fresh_partial under the assumption KeepsHeaderLines (checked on every rustfmt output of the run), and the proved failure of the pre-fix behaviour (defect F8, fixed); directory mode (BuildDir.lean: the recursive walk as runDir over the files in listing order, first error ends it): C18_dir_success_is_per_file, C18_dir_failure_preserves, C18_dir_ok_iff, C18_dir_order_irrelevant (any listing order, on success), C18_dir_untouched, and a checked instance that the order matters on failure. Tie: fsdiff histories against the real Compile in a scratch directory (file, explicit destination, directory, symlinked-directory, directory with two grammar files at different depths – listing order reported by the harness and handed to runDir – and .format() mode, bystander files, prefixes rustfmt rewrites).',
                 tech='Lean 4 invariant proof over operation histories of a file-system state machine + differential histories'),
     'C19': dict(engine='pegdiff', ref='6 C19',
                 text='Lean theorems: log erasure (no evaluator step reads the log: result, cache, user context independent of it) and Dyck balance / no underflow of tracer events on every exit path (failure, cache hit, left-recursion re-evaluation). Tie: pegdiff with a custom ParseTracer (callback sequence equal to the model, traced result equals plain result) and with the shipped IndentedTracer (result equal to the plain parse, no panic; deep-nesting family).',
